@@ -1,5 +1,26 @@
 import PestModel.Model.Grammar
-/-! # C09 — modelled panic sites of the front-end's back half (unroller / conversion). -/
+import PestModel.Lemmas.MetaRules
+import PestModel.Lemmas.ReaderNoPanic
+/-!
+# C09 — the grammar front-end is total
+
+`ReaderP` is `pest_meta::parser::{parse, consume_rules}` with every panic site of `parser.rs` explicit
+(`unwrap()` on a missing pair, `unreachable!()` on an unexpected rule, string slices, the Pratt parser's
+panics) and kept apart from the located errors the code returns. The theorems:
+
+* `meta_pairs_shape` — whatever `parse(Rule::grammar_rules, text)` returns (the reference denotation of the
+  REGENERATED `grammar.pest`, for any text and any amount of fuel) has the shape `GrammarForest`: every pair has
+  exactly the inner pairs the reader unwraps, string/character literals are opened and closed by their quote,
+  tags start with `#`, every span is a slice of the text (Hoare rule over the rules of the meta-grammar,
+  `MetaPost.metaPostOK`);
+* `consume_rules_no_panic` — on pairs of that shape no panic site of `consume_rules` is reachable;
+* `frontend_no_panic` — the two together: for EVERY text the reader returns rules or a located error.
+* `unrollF_total` — the unroller's `unwrap` (empty unrolling) is unreachable for the counts the reader lets through.
+
+Not covered by a theorem (sampled by the correspondence only): the panic sites of `validator.rs` / `optimizer/*.rs`
+behind the reader other than the unroller's, error rendering (C10's `render_total` is about `pest::error`), time
+bounds, and native stack depth (the recorded finding).
+-/
 namespace PestModel.C09
 open PestModel.G
 
@@ -26,5 +47,54 @@ theorem unrollF_total (extras : Bool) (e : Expr) (n m : Nat) (hn : 0 < n) :
     have := congrArg List.length h
     simp at this
     omega
+
+open PestModel.ReaderShape PestModel.ReaderP in
+/-- the pairs the meta-grammar produces have the shape the reader relies on (any text, any fuel). -/
+theorem meta_pairs_shape (text : PestModel.LineCol.Str) (n : Nat) (s' : PestModel.Ref.St) (F : List PestModel.Views.Tree)
+    (h : PestModel.Ref.meaning PestModel.Gen.Meta.rules false PestModel.ReaderFull.noUni n "grammar_rules" text = .ok s' F) :
+    GrammarForest text F :=
+  PestModel.MetaPost.meta_forest text n s' F h
+
+open PestModel.ReaderShape PestModel.ReaderP in
+/-- on pairs of that shape no panic site of `consume_rules` is reachable. -/
+theorem consume_rules_no_panic (extras : Bool) (text : PestModel.LineCol.Str) (forest : List PestModel.Views.Tree)
+    (h : GrammarForest text forest) : consumeRules extras text forest ≠ .panic :=
+  consumeRules_np extras text forest h
+
+open PestModel.ReaderP in
+/-- **The reader never panics**: for every text (and both feature settings) `parse` + `consume_rules` yields rules or
+a located error — never one of the `unwrap`/`unreachable!`/slice/Pratt panics of `parser.rs`. -/
+theorem frontend_no_panic (extras : Bool) (text : PestModel.LineCol.Str) :
+    readGrammar extras text ≠ some .panic := by
+  unfold readGrammar
+  split
+  · rename_i s' forest h
+    intro hc
+    have := consume_rules_no_panic extras text forest (meta_pairs_shape text _ s' forest h)
+    simp only [Option.some.injEq] at hc
+    exact this hc
+  · simp
+  · simp
+
+/-! non-vacuity: the pairs of `a={b}` (written out) have the shape, so the hypothesis of `consume_rules_no_panic` is met
+by a real forest. -/
+section
+open PestModel.ReaderShape PestModel.Views PestModel.C07Full
+def exText : PestModel.LineCol.Str := "a={b}".toList
+def exTerm : Tree := .node (ix "term") 3 4 none [.node (ix "identifier") 3 4 none []]
+def exRule : Tree := .node (ix "grammar_rule") 0 5 none
+  [.node (ix "identifier") 0 1 none [], .node (ix "assignment_operator") 1 2 none [], .node (ix "opening_brace") 2 3 none [],
+   .node (ix "expression") 3 4 none [exTerm], .node (ix "closing_brace") 4 5 none []]
+
+example : GrammarForest exText [exRule] := by
+  intro t ht _
+  simp only [List.mem_singleton] at ht
+  subst ht
+  refine Or.inr ⟨_, _, [], _, _, _, rfl, by decide, ⟨['a'], by decide⟩, Or.inl rfl, by decide, by decide, ?_⟩
+  have hu : UnArgs exText exTerm.children :=
+    .plain (.leaf (Or.inr (Or.inr (Or.inl ⟨by decide, ⟨['b'], by decide⟩⟩))) (by simp))
+  have := ExprKids.mk (text := exText) [] exTerm [] (Or.inl rfl) (by decide) hu (by simp) (by simp)
+  simpa [Tree.children] using this
+end
 
 end PestModel.C09
